@@ -23,9 +23,12 @@ def run_scenario(scenario_text, profile="dev", timeout=1500):
         rc, out, dt = run(cmd, cwd=s.repo, env={"VERIF_SCENARIO": sc}, timeout=timeout)
         lines = [l.strip() for l in out.splitlines() if l.startswith(("RESULT", "STEP"))]
         viol = [l for l in lines if l.startswith("RESULT violation")]
+        broke = [l for l in lines if l.startswith("RESULT harness-panic")]
         holds = any(l.startswith("RESULT holds") for l in lines)
-        panicked = "panicked at" in out and not holds and not viol
-        if viol or panicked:
+        panicked = "panicked at" in out and not holds and not viol and not broke
+        if broke and not viol:
+            rep = None
+        elif viol or panicked:
             rep = True
         elif holds:
             rep = False
